@@ -492,3 +492,19 @@ def std_replay(ctx, path, tags=("verif",)):
     print("model:", mod[0][:2000])
     ctx.compare([case], impl, mod, "replay")
     ctx.count(case)
+
+
+def run_raw(exe, lines, env=None, timeout=1800, cpus=None):
+    """single process; returns (outputs, stderr, returncode) ; returncode None on timeout"""
+    cmd = [exe]
+    if cpus is not None:
+        cmd = ["taskset", "-c", ",".join(str(c) for c in cpus)] + cmd
+    try:
+        p = subprocess.run(cmd, input="\n".join(lines) + "\n", capture_output=True, text=True,
+                           timeout=timeout, env=env)
+    except subprocess.TimeoutExpired as e:
+        return [], (e.stderr or b"").decode(errors="replace") if isinstance(e.stderr, bytes) else (e.stderr or ""), None
+    outs = p.stdout.split("\n")
+    if outs and outs[-1] == "":
+        outs.pop()
+    return outs, p.stderr, p.returncode
